@@ -58,8 +58,9 @@ EXTRA = {
         "byte granularity is outside the quantifier and not exercised",
         "read_excel: workbooks written by openpyxl from the (storable) damaged grid, read back with and without the "
         "<dimension> record; the rows handed to the model are those openpyxl's read-only reader yields",
-        "the origin row of a delivered jsondata / cellgrid table is observed by wrapping the TABLE handler inside the "
-        "harness process (no change to /repo)",
+        "the origin row of a delivered jsondata / cellgrid table is observed through the public surface only: a second "
+        "pass over the same rows with parse_blocks_stable and a handler dict of our own built from the public "
+        "DEFAULT_HANDLERS / TABLE_HANDLERS (nothing in the library is modified)",
         "CPython float(), pandas.to_datetime and numpy/pandas dtype inference are external parameters of the model",
         "DataFrame / Table construction on top of a successfully parsed precursor raises only ValueError or "
         "ColumnUnitException (modelled: unequal column lengths, mixed UTC offsets); compared on every case",
@@ -158,27 +159,41 @@ def split_text(text):
 
 # --------------------------------------------------------------------------- running the real code
 
-@contextlib.contextmanager
-def recording_table_handler(to, rec):
-    """harness-side observation only: wrap the TABLE handler `parse_blocks` installs for this output form so that
-    the origin row of every table block whose handler RETURNED is recorded (jsondata / cellgrid values carry no
-    origin themselves)"""
-    import pdtable.io.parsers.blocks as B
-    orig = B._table_handlers[to]
+def table_origins(rows, to, tracker, fixer_kind):
+    """origin rows of the TABLE blocks that are delivered when `rows` are read in output form `to` — observed through
+    the PUBLIC surface only: `parse_blocks_stable` with a handler dict of our own, built from the public handler
+    tables `DEFAULT_HANDLERS` / `TABLE_HANDLERS` exactly as `parse_blocks` builds its own, the TABLE handler wrapped so
+    that the origin it is given is recorded when it returns. (jsondata / cellgrid values carry no origin themselves;
+    nothing in the library is modified.)"""
+    from pdtable import BlockType
+    from pdtable.io.parsers import blocks as B
+    from pdtable.table_origin import InputError
+    rec = []
+    handlers = {bt: B.make_raw_cells for bt in BlockType}
+    handlers.update(dict(B.DEFAULT_HANDLERS))
+    base = dict(B.TABLE_HANDLERS)[to]
 
-    def wrapped(cells, *a, **kw):
+    def table_handler(cells, *a, **kw):
         origin = kw.get("origin", a[0] if a else None)
-        val = orig(cells, *a, **kw)
+        val = base(cells, *a, **kw)
         rec.append(getattr(getattr(origin, "input_location", None), "row", None))
         return val
-    B._table_handlers[to] = wrapped
+    handlers[BlockType.TABLE] = table_handler
+    tr = bc.collecting_tracker() if tracker == "collecting" else None
+    fixer = rc.make_fixer(fixer_kind) if fixer_kind else None
     try:
-        yield
-    finally:
-        B._table_handlers[to] = orig
+        with warnings.catch_warnings():
+            warnings.simplefilter("ignore")
+            for _ in B.parse_blocks_stable(iter(rows), issue_tracker=tr, block_handlers=handlers, fixer=fixer):
+                pass
+    except InputError:
+        pass
+    except Exception:  # noqa: BLE001 — the API read of the same rows is what is judged; this pass only observes
+        return None
+    return rec
 
 
-def run_reader(route, payload, to, tracker, fixer_kind, env=None):
+def run_reader(route, payload, to, tracker, fixer_kind, env=None, rows=None):
     """the real reader: route "native" (parse_blocks on the row objects as given: lists or tuples), "text"
     (read_csv on io.StringIO), "file" (read_csv on a path), "excel" (read_excel on a path).
     -> blocks / issues / ending as bc.impl_parse_blocks, + "tables": [(origin row, value)] of the delivered tables"""
@@ -187,9 +202,9 @@ def run_reader(route, payload, to, tracker, fixer_kind, env=None):
     from pdtable.table_origin import InputError
     tr = bc.collecting_tracker() if tracker == "collecting" else None
     fixer = rc.make_fixer(fixer_kind) if fixer_kind else None
-    blocks, ending, rec = [], "exhausted", []
+    blocks, ending = [], "exhausted"
     try:
-        with warnings.catch_warnings(), recording_table_handler(to, rec):
+        with warnings.catch_warnings():
             warnings.simplefilter("ignore")
             if route == "native":
                 gen = parse_blocks(iter(payload), to=to, issue_tracker=tr, fixer=fixer)
@@ -233,7 +248,11 @@ def run_reader(route, payload, to, tracker, fixer_kind, env=None):
     issues = [getattr(i.load_location, "row", None) for i in tr.issues] if tr is not None else \
         ([ending["InputError"]] if isinstance(ending, dict) and "InputError" in ending else [])
     tvals = [b["val"] for b in blocks if b["ty"] == "TABLE"]
-    tables = list(zip(rec, tvals)) if len(rec) == len(tvals) else [(None, v) for v in tvals]
+    if to == "pdtable":
+        rec = [b["first"] for b in blocks if b["ty"] == "TABLE"]          # a Table carries its own origin
+    else:
+        rec = table_origins(rows if rows is not None else payload, to, tracker, fixer_kind) if tvals else []
+    tables = list(zip(rec, tvals)) if rec is not None and len(rec) == len(tvals) else [(None, v) for v in tvals]
     return {"blocks": blocks, "issues": issues, "ending": ending, "tables": tables}
 
 
@@ -605,9 +624,10 @@ def one_base(seed, bi, thorough, out, model_ok, ops, pend, tmpdir, only=None):
                     n_files += 1
                     path = write_text_file(tmpdir, dtext, n_files)
                     res[tr] = run_reader("file-env", (tmpdir, os.path.basename(path)), to, tr, fixer_kind,
-                                         env=how.split(":")[1])
+                                         env=how.split(":")[1], rows=drows)
                 else:
-                    res[tr] = run_reader({"native-tuples": "native"}.get(how, how), payload, to, tr, fixer_kind)
+                    res[tr] = run_reader({"native-tuples": "native"}.get(how, how), payload, to, tr, fixer_kind,
+                                         rows=drows)
                 e = res[tr]["ending"]
                 out.count("ending:" + tr + ":" + (e if isinstance(e, str) else next(iter(e))))
             if how == "file":
@@ -648,7 +668,7 @@ def one_base(seed, bi, thorough, out, model_ok, ops, pend, tmpdir, only=None):
                     out.count("excel: ragged rows")
                 res = {}
                 for tr in ("raising", "collecting"):
-                    res[tr] = run_reader("excel", path, to, tr, None)
+                    res[tr] = run_reader("excel", path, to, tr, None, rows=drows)
                     e = res[tr]["ending"]
                     out.count("ending:" + tr + ":" + (e if isinstance(e, str) else next(iter(e))))
             finally:
